@@ -31,7 +31,7 @@ def _item():
         "sexit": st.sampled_from([False, True]),
         "xraise": st.sampled_from([False] * 11 + [True]),
         "falsy": st.sampled_from([False] * 5 + [True]),
-        "exitname": st.sampled_from([None] * 6 + ["Alias", "Deco"]),
+        "exitname": st.sampled_from([None] * 6 + ["Alias", "Deco", "Dual"]),
     })
 
 
@@ -177,6 +177,10 @@ def features(prog):
                         f.add("aenter_suspends")
                     if it.get("swallow"):
                         f.add("swallow")
+                    if it.get("falsy"):
+                        f.add("manager.falsy")
+                    if it.get("exitname"):
+                        f.add("manager.exit_" + it["exitname"].lower())
                 lc = last_stmt_class(s["body"])
                 f.add("body_ends." + lc)
                 if lc not in ("susp", "probe", "noop"):
@@ -283,7 +287,7 @@ def table_programs():
             # every third table program uses an aliased / decorated exit method for its innermost manager
             en = None
             if m == 2 or shape == "single":
-                en = [None, "Alias", "Deco"][(len(out)) % 3]
+                en = [None, "Alias", "Deco", "Dual"][(len(out)) % 4]
             return {"m": m, "target": "name", "swallow": swallow, "senter": False, "sexit": a, "xraise": False,
                     "exitname": en}
 
